@@ -16,6 +16,8 @@ import (
 type flowCase struct {
 	Depth int      `json:"depth"`
 	Kinds []string `json:"kinds"`
+	// Args: every level also declares a flag and an argument (spec "[-f] [X]") and gets its own tokens on the command line
+	Args bool `json:"args"`
 }
 
 type flowResult struct {
@@ -74,6 +76,11 @@ func buildFlowApp(c flowCase, log *[]string, raised map[string]*hookPanic) *cli.
 	app.ErrorHandling = flag.ContinueOnError
 	var build func(cmd *cli.Cmd, lvl int)
 	build = func(cmd *cli.Cmd, lvl int) {
+		if c.Args {
+			cmd.Spec = "[-f] [X]"
+			cmd.BoolOpt("f", false, "")
+			cmd.StringArg("X", "", "")
+		}
 		cmd.Before = mk(fmt.Sprintf("B%d", lvl))
 		cmd.After = mk(fmt.Sprintf("A%d", lvl))
 		if lvl == c.Depth {
@@ -86,10 +93,17 @@ func buildFlowApp(c flowCase, log *[]string, raised map[string]*hookPanic) *cli.
 	return app
 }
 
-func flowArgs(depth int) []string {
+func flowArgs(c flowCase) []string {
+	own := [][]string{{"-f", "x"}, {"x"}, {"-f"}, {}}
 	args := []string{"app"}
-	for l := 1; l <= depth; l++ {
+	if c.Args {
+		args = append(args, own[0]...)
+	}
+	for l := 1; l <= c.Depth; l++ {
 		args = append(args, fmt.Sprintf("c%d", l))
+		if c.Args {
+			args = append(args, own[l%len(own)]...)
+		}
 	}
 	return args
 }
@@ -123,7 +137,7 @@ func init() {
 				panic(v)
 			}
 		}()
-		app.Run(flowArgs(c.Depth))
+		app.Run(flowArgs(c))
 		fmt.Println("RETURNED")
 	}
 }
@@ -155,7 +169,7 @@ func runFlow(c flowCase) (r flowResult) {
 				r.Fin, r.By = "panic", fmt.Sprintf("foreign value %v", x)
 			}
 		}()
-		if err := app.Run(flowArgs(c.Depth)); err != nil {
+		if err := app.Run(flowArgs(c)); err != nil {
 			r.Err = err.Error()
 		}
 	}()
